@@ -1,9 +1,9 @@
-(* C01 / C04: for three core mutators the hand-written model IS what the source does: running the programs that
+(* C01 / C04: for nine core mutators the hand-written model IS what the source does: running the programs that
    harness/translate_mutators.py regenerates from xgi/core/hypergraph.py on every run (Gen/Mutators.v), under the
    semantics of Model/PyIR.v, gives exactly the model's result - state, outcome and warnings. *)
 From Coq Require Import String ZArith List Bool Lia.
 From XV Require Import Base.Label Base.LSet Base.ODict Base.Attr Base.Outcome Model.Hypergraph Model.PyIR Gen.Mutators
-     Proofs.HgViews Proofs.HgInv.
+     Proofs.HgViews Proofs.HgInv Proofs.HgInvOps Proofs.HgErrors.
 Import ListNotations.
 Open Scope Z_scope.
 
@@ -21,25 +21,25 @@ Proof.
   - generalize s. induction el as [|q r IH]; intro s0; [reflexivity|]. cbn [exec_list]. destruct (exec q en s0) as [s' [|x]]; [apply IH|reflexivity].
 Qed.
 
-Fixpoint iter_list (body : list stmt) (args : list lbl) (flags : list bool) (a : attrs) (l1 : lbl) (locs : list (list lbl)) (xs : list lbl) (s : hg) : hg * outcome :=
+Fixpoint iter_list (body : list stmt) (en : env) (xs : list lbl) (s : hg) : hg * outcome :=
   match xs with
   | [] => (s, Ok)
-  | x :: r => match exec_list body (mkEnv args flags x a l1 locs) s with (s', Ok) => iter_list body args flags a l1 locs r s' | y => y end
+  | x :: r => match exec_list body (with_loop en x) s with (s', Ok) => iter_list body en r s' | y => y end
   end.
 
 Lemma exec_for t k body en s :
   exec (SForCopy t k body) en s =
   match get (veval k en) (tab t s) with
   | None => (s, Raised IDNotFound)
-  | Some m => iter_list body (e_args en) (e_flags en) (e_attr en) (e_loop en) (e_locals en) m s
+  | Some m => iter_list body en m s
   end.
 Proof.
   cbn [exec]. destruct (get (veval k en) (tab t s)) as [m|]; [|reflexivity].
   generalize s. induction m as [|x r IH]; intro s0; [reflexivity|]. cbn [iter_list].
   assert (E : forall l s1, (fix go (l : list stmt) (s : hg) : hg * outcome :=
                match l with [] => (s, Ok)
-               | q :: r' => match exec q (mkEnv (e_args en) (e_flags en) x (e_attr en) (e_loop en) (e_locals en)) s with (s', Ok) => go r' s' | y => y end end) l s1
-             = exec_list l (mkEnv (e_args en) (e_flags en) x (e_attr en) (e_loop en) (e_locals en)) s1).
+               | q :: r' => match exec q (with_loop en x) s with (s', Ok) => go r' s' | y => y end end) l s1
+             = exec_list l (with_loop en x) s1).
   { induction l as [|q r' IHl]; intro s1; [reflexivity|]. cbn [exec_list]. destruct (exec q _ s1) as [s' [|y]]; [apply IHl|reflexivity]. }
   rewrite E. destruct (exec_list body _ s0) as [s' [|y]]; [apply IH|reflexivity].
 Qed.
@@ -77,8 +77,8 @@ Proof. reflexivity. Qed.
 Lemma exec_list_nil en s : exec_list [] en s = (s, Ok).
 Proof. reflexivity. Qed.
 
-Ltac hgs := cbn [h_node h_nattr h_edge h_eattr h_net h_uid with_node with_nattr with_edge with_eattr with_uid
-                 tab set_tab atab set_atab veval e_args e_flags e_loop e_attr e_loop1 e_locals nth].
+Ltac hgs := unfold with_loop, with_local, with_uid_var; cbn [h_node h_nattr h_edge h_eattr h_net h_uid with_node with_nattr with_edge with_eattr with_uid
+                 tab set_tab atab set_atab veval e_args e_flags e_loop e_attr e_loop1 e_locals e_members e_idx e_uid with_loop with_local with_uid_var nth].
 Ltac step := rewrite ?exec_list_cons, ?exec_list_nil, ?exec_if, ?exec_newset, ?exec_newattr, ?exec_add, ?exec_remove, ?exec_del,
                      ?exec_delattr, ?exec_uid, ?exec_raise; cbn [beval]; hgs; cbn [negb andb];
              repeat match goal with H : is_none _ = false |- _ => rewrite H end.
@@ -93,7 +93,7 @@ Definition antE_tail : list stmt :=
    SAdd TEdge (VArg 0) (VArg 1); SAdd TNode (VArg 1) (VArg 0)].
 
 Lemma antE_tail_ok e n s1 m : get e (h_edge s1) = Some m ->
-  (let (s', o) := exec_list antE_tail (mkEnv [e; n] [] LNone [] LNone []) s1 in (s', o, O)) =
+  (let (s', o) := exec_list antE_tail (mkEnv [e; n] [] LNone [] LNone [] [] None LNone) s1 in (s', o, O)) =
   (if negb (has n (h_node s1)) && is_none n then raise s1 XGIError
    else ok (node_add n e (edge_add e n (ensure_node n s1)))).
 Proof.
@@ -129,9 +129,9 @@ Proof.
   destruct (IH (node_rem x e s)) as [A B]. rewrite A, B. unfold node_rem. destruct (has x (h_node s)); split; reflexivity.
 Qed.
 
-Lemma iter_remove_ok e : forall xs s, NoDup xs ->
+Lemma iter_remove_ok e l0 l1 ms ix u : forall xs s, NoDup xs ->
   (forall x, In x xs -> exists l, get x (h_node s) = Some l /\ mem e l = true) ->
-  iter_list [SRemove TNode VLoop (VArg 0)] [e] [] [] LNone [] xs s = (fold_left (fun s n => node_rem n e s) xs s, Ok).
+  iter_list [SRemove TNode VLoop (VArg 0)] (mkEnv [e] [] l0 [] l1 [] ms ix u) xs s = (fold_left (fun s n => node_rem n e s) xs s, Ok).
 Proof.
   induction xs as [|x xs IH]; intros s ND H; [reflexivity|]. cbn [iter_list fold_left].
   inversion ND as [|? ? Hx ND']; subst. destruct (H x (or_introl eq_refl)) as (l & Gl & Ml).
@@ -149,7 +149,7 @@ Proof.
   intros (W & (_ & Kea & _ & _) & (_ & Vm) & _). unfold run_method, run_method_a, src_remove_edge, remove_edge1.
   rewrite exec_list_cons, exec_for. hgs. destruct (get e (h_edge s)) as [m|] eqn:Ge; [|reflexivity].
   assert (Hm : mems s e = m) by (unfold mems, getl; rewrite Ge; reflexivity).
-  rewrite (iter_remove_ok e m s).
+  rewrite (iter_remove_ok e LNone LNone [] None LNone m s).
   2:{ rewrite <- Hm. apply Vm. }
   2:{ intros x Hx. assert (Hi : In e (mships s x)) by (apply W; rewrite Hm; exact Hx).
       unfold mships, getl in Hi. destruct (get x (h_node s)) as [l|]; [|destruct Hi]. exists l. split; [reflexivity|apply mem_In; exact Hi]. }
@@ -224,7 +224,7 @@ Lemma exec_bind t k body en s :
   exec (SBindIn t k body) en s =
   match get (veval k en) (tab t s) with
   | None => (s, Raised IDNotFound)
-  | Some m => exec_list body (mkEnv (e_args en) (e_flags en) (e_loop en) (e_attr en) (e_loop1 en) (m :: e_locals en)) s
+  | Some m => exec_list body (with_local en m) s
   end.
 Proof.
   cbn [exec]. destruct (get (veval k en) (tab t s)) as [m|]; [|reflexivity].
@@ -234,23 +234,23 @@ Qed.
 
 Lemma exec_forlocal i minus body en s :
   exec (SForLocal i minus body) en s =
-  iter_list body (e_args en) (e_flags en) (e_attr en) (e_loop en) (e_locals en)
+  iter_list body en
             (match minus with Some v => sremove (veval v en) (nth i (e_locals en) []) | None => nth i (e_locals en) [] end) s.
 Proof.
   cbn [exec]. generalize (match minus with Some v => sremove (veval v en) (nth i (e_locals en) []) | None => nth i (e_locals en) [] end).
   intro xs. generalize s. induction xs as [|x r IH]; intro s0; [reflexivity|]. cbn [iter_list].
   assert (E : forall l s1, (fix go (l : list stmt) (s : hg) : hg * outcome :=
                match l with [] => (s, Ok)
-               | q :: r' => match exec q (mkEnv (e_args en) (e_flags en) x (e_attr en) (e_loop en) (e_locals en)) s with (s', Ok) => go r' s' | y => y end end) l s1
-             = exec_list l (mkEnv (e_args en) (e_flags en) x (e_attr en) (e_loop en) (e_locals en)) s1).
+               | q :: r' => match exec q (with_loop en x) s with (s', Ok) => go r' s' | y => y end end) l s1
+             = exec_list l (with_loop en x) s1).
   { induction l as [|q r' IHl]; intro s1; [reflexivity|]. cbn [exec_list]. destruct (exec q _ s1) as [s' [|y]]; [apply IHl|reflexivity]. }
   rewrite E. destruct (exec_list body _ s0) as [s' [|y]]; [apply IH|reflexivity].
 Qed.
 
 (* the inner loop of the strong branch: remove e from the membership sets of the listed nodes *)
-Lemma iter_remove_e_ok n flags locs e : forall xs s, NoDup xs ->
+Lemma iter_remove_e_ok args flags locs e l1 ms ix u : forall xs s, NoDup xs ->
   (forall x, In x xs -> exists l, get x (h_node s) = Some l /\ mem e l = true) ->
-  iter_list [SRemove TNode VLoop VLoop1] [n] flags [] e locs xs s = (fold_left (fun s m => node_rem m e s) xs s, Ok).
+  iter_list [SRemove TNode VLoop VLoop1] (mkEnv args flags e [] l1 locs ms ix u) xs s = (fold_left (fun s m => node_rem m e s) xs s, Ok).
 Proof.
   induction xs as [|x xs IH]; intros s ND H; [reflexivity|]. cbn [iter_list fold_left].
   inversion ND as [|? ? Hx ND']; subst. destruct (H x (or_introl eq_refl)) as (l & Gl & Ml).
@@ -268,9 +268,9 @@ Definition StrongQ (n : lbl) (s0 s : hg) (es : list lbl) : Prop :=
                                  has e (h_eattr s) = true /\
                                  forall x, In x m -> x <> n -> exists l, get x (h_node s) = Some l /\ mem e l = true.
 
-Lemma strong_loop_ok n flags locs s0 : forall es s, NoDup es -> StrongQ n s0 s es ->
+Lemma strong_loop_ok n flags locs s0 lp0 lp1 ms ix u : forall es s, NoDup es -> StrongQ n s0 s es ->
   iter_list [SBindIn TEdge VLoop [SDel TEdge VLoop; SDelAttr TEdge VLoop; SForLocal 0 (Some (VArg 0)) [SRemove TNode VLoop VLoop1]]]
-            [n] flags [] LNone locs es s =
+            (mkEnv [n] flags lp0 [] lp1 locs ms ix u) es s =
   (fold_left (fun s e => let nbrs := getl e (h_edge s) in let s' := drop_edge e s in
                          fold_left (fun s m => node_rem m e s) (sremove n nbrs) s') es s, Ok).
 Proof.
@@ -283,7 +283,7 @@ Proof.
   rewrite exec_list_cons, exec_forlocal. hgs.
   set (s' := with_eattr (with_edge s (del e (h_edge s))) (del e (h_eattr s))).
   assert (Ed : s' = drop_edge e s) by reflexivity.
-  rewrite (iter_remove_e_ok n flags (m :: locs) e (sremove n m) s').
+  rewrite (iter_remove_e_ok [n] flags (m :: locs) e lp0 ms ix u (sremove n m) s').
   2:{ apply NoDup_sremove. exact NDm. }
   2:{ intros x Hx. apply In_sremove in Hx. destruct Hx as [Nx Hx]. destruct (Hn x Hx Nx) as (l & Gl & Ml). exists l. split; [exact Gl|exact Ml]. }
   rewrite !exec_list_nil.
@@ -313,9 +313,9 @@ Qed.
 Definition WeakQ (n : lbl) (s : hg) (es : list lbl) : Prop :=
   forall e, In e es -> exists m, get e (h_edge s) = Some m /\ mem n m = true /\ has e (h_eattr s) = true.
 
-Lemma weak_loop_ok n strong re locs : forall es s, NoDup es -> WeakQ n s es ->
+Lemma weak_loop_ok n strong re locs l0 l1 ms ix u : forall es s, NoDup es -> WeakQ n s es ->
   iter_list [SRemove TEdge VLoop (VArg 0); SIf (BAnd (BEmptySet VLoop TEdge) (BFlag 1)) [SDel TEdge VLoop; SDelAttr TEdge VLoop] []]
-            [n] [strong; re] [] LNone locs es s =
+            (mkEnv [n] [strong; re] l0 [] l1 locs ms ix u) es s =
   (fold_left (fun s e => let s' := edge_rem e n s in
                          if (match getl e (h_edge s') with [] => true | _ => false end) && re && has e (h_edge s')
                          then drop_edge e s' else s') es s, Ok).
@@ -369,7 +369,7 @@ Proof.
   { intros e m G. apply has_In. rewrite Kea. apply (get_Some_In e (h_edge s) m G). }
   rewrite exec_list_cons, exec_if. cbn [beval]. hgs. destruct strong; cbn [nth].
   - rewrite exec_list_cons, exec_forlocal. hgs.
-    rewrite (strong_loop_ok n [true; re] [es] s es s1 NDes).
+    rewrite (strong_loop_ok n [true; re] [es] s LNone LNone [] None LNone es s1 NDes).
     + rewrite !exec_list_nil. rewrite E1. reflexivity.
     + intros e He. destruct (Edge e He) as (m & Gm & Hnm). exists m. split; [unfold s1; hgs; exact Gm|]. split; [exact Gm|].
       split; [pose proof (Vm e) as V; unfold mems, getl in V; rewrite Gm in V; exact V|].
@@ -378,8 +378,226 @@ Proof.
       unfold mships, getl in Hi. destruct (get x (h_node s)) as [l|] eqn:Gx; [|destruct Hi].
       exists l. split; [unfold s1; hgs; rewrite get_del_other by exact Nx; exact Gx|apply mem_In; exact Hi].
   - rewrite exec_list_cons, exec_forlocal. hgs.
-    rewrite (weak_loop_ok n false re [es] es s1 NDes).
+    rewrite (weak_loop_ok n false re [es] LNone LNone [] None LNone es s1 NDes).
     + rewrite !exec_list_nil. rewrite E1. reflexivity.
     + intros e He. destruct (Edge e He) as (m & Gm & Hnm). exists m. split; [unfold s1; hgs; exact Gm|].
       split; [apply mem_In; exact Hnm|unfold s1; hgs; apply (Eattr e m Gm)].
+Qed.
+
+
+(* ---------- add_edge(members, idx=None, **attr) ---------- *)
+Lemma exec_binduid body en s :
+  exec (SBindUid body) en s =
+  exec_list body (with_uid_var en (match e_idx en with Some i => i | None => LInt (h_uid s) end))
+            (match e_idx en with Some _ => s | None => with_uid s (h_uid s + 1) end).
+Proof.
+  cbn [exec]. generalize (match e_idx en with Some _ => s | None => with_uid s (h_uid s + 1) end).
+  induction body as [|q r IH]; intro s0; [reflexivity|]. cbn [exec_list].
+  destruct (exec q _ s0) as [s' [|y]]; [apply IH|reflexivity].
+Qed.
+
+Lemma exec_formembers body en s : exec (SForMembers body) en s = iter_list body en (e_members en) s.
+Proof.
+  cbn [exec]. generalize (e_members en). intro xs. generalize s. induction xs as [|x r IH]; intro s0; [reflexivity|]. cbn [iter_list].
+  assert (E : forall l s1, (fix go (l : list stmt) (s : hg) : hg * outcome :=
+               match l with [] => (s, Ok)
+               | q :: r' => match exec q (with_loop en x) s with (s', Ok) => go r' s' | y => y end end) l s1
+             = exec_list l (with_loop en x) s1).
+  { induction l as [|q r' IHl]; intro s1; [reflexivity|]. cbn [exec_list]. destruct (exec q _ s1) as [s' [|y]]; [apply IHl|reflexivity]. }
+  rewrite E. destruct (exec_list body _ s0) as [s' [|y]]; [apply IH|reflexivity].
+Qed.
+
+Lemma set_set_same {V} k (v1 v2 : V) d : set k v2 (set k v1 d) = set k v2 d.
+Proof.
+  induction d as [|[k' v'] r IH]; cbn [set].
+  - rewrite lbl_eqb_refl. reflexivity.
+  - destruct (lbl_eqb k k') eqn:E; cbn [set]; rewrite E; [reflexivity|]. rewrite IH. reflexivity.
+Qed.
+
+Lemma attach_has_edge e n s : has e (h_edge (attach e s n)) = true.
+Proof. unfold attach, edge_add, has. hgs. rewrite get_set_same. reflexivity. Qed.
+
+(* the member loop: for each node, create it if new, then record the membership on both sides *)
+Lemma member_loop_ok e a l0 l1 ms ix : forall xs s,
+  (forall x, In x xs -> is_none x = false) -> has e (h_edge s) = true ->
+  iter_list [SIf (BNot (BIn VLoop TNode)) [SNewSet TNode VLoop; SNewAttr TNode VLoop] []; SAdd TNode VLoop VUid; SAdd TEdge VUid VLoop]
+            (mkEnv [] [] l0 a l1 [] ms ix e) xs s = (fold_left (attach e) xs s, Ok).
+Proof.
+  induction xs as [|x xs IH]; intros s Hn He; [reflexivity|]. cbn [iter_list fold_left].
+  assert (Nx : is_none x = false) by (apply Hn; left; reflexivity).
+  assert (Goal1 : exec_list [SIf (BNot (BIn VLoop TNode)) [SNewSet TNode VLoop; SNewAttr TNode VLoop] []; SAdd TNode VLoop VUid; SAdd TEdge VUid VLoop]
+                    (with_loop (mkEnv [] [] l0 a l1 [] ms ix e) x) s = (attach e s x, Ok)).
+  { rewrite exec_list_cons, exec_if. cbn [beval]. hgs.
+    unfold attach, ensure_node.
+    destruct (has x (h_node s)) eqn:Hx; cbn [negb].
+    - rewrite exec_list_nil. unfold has in Hx. destruct (get x (h_node s)) as [l|] eqn:Gx; [|discriminate Hx].
+      rewrite exec_list_cons, exec_add. hgs. rewrite Gx. rewrite exec_list_cons, exec_add. hgs.
+      unfold has in He. destruct (get e (h_edge s)) as [m|] eqn:Ge; [|discriminate He]. rewrite exec_list_nil.
+      unfold node_add, edge_add, getl. hgs. rewrite Gx, Ge. reflexivity.
+    - rewrite exec_list_cons, exec_newset. hgs. rewrite Nx. rewrite exec_list_cons, exec_newattr. hgs. rewrite Nx. rewrite exec_list_nil.
+      rewrite exec_list_cons, exec_add. hgs. rewrite get_set_same. rewrite exec_list_cons, exec_add. hgs.
+      unfold has in He. destruct (get e (h_edge s)) as [m|] eqn:Ge; [|discriminate He]. rewrite exec_list_nil.
+      unfold node_add, edge_add, getl. hgs. rewrite get_set_same, Ge. reflexivity. }
+  rewrite Goal1. apply IH; [intros y Hy; apply Hn; right; exact Hy|apply attach_has_edge].
+Qed.
+
+Lemma fold_attach_has_edge e : forall xs s, has e (h_edge s) = true -> has e (h_edge (fold_left (attach e) xs s)) = true.
+Proof. induction xs as [|x xs IH]; intros s H; [exact H|]. cbn [fold_left]. apply IH. apply attach_has_edge. Qed.
+
+Lemma fold_attach_eattr e : forall xs s, h_eattr (fold_left (attach e) xs s) = h_eattr s.
+Proof. induction xs as [|x xs IH]; intro s; [reflexivity|]. cbn [fold_left]. rewrite IH. unfold attach, edge_add, node_add, ensure_node. destruct (has x (h_node s)); reflexivity. Qed.
+
+(* the statements after the guards, once the id is known *)
+Lemma add_edge_body_ok a ms ix u s0 rest :
+  is_none u = false -> (forall x, In x ms -> is_none x = false) ->
+  exec_list [SNewSet TEdge VUid;
+             SForMembers [SIf (BNot (BIn VLoop TNode)) [SNewSet TNode VLoop; SNewAttr TNode VLoop] []; SAdd TNode VLoop VUid; SAdd TEdge VUid VLoop];
+             SNewAttr TEdge VUid; SAttrUpdate TEdge VUid; rest]
+            (mkEnv [] [] LNone a LNone [] ms ix u) s0 =
+  exec_list [rest] (mkEnv [] [] LNone a LNone [] ms ix u) (insert_edge u ms a s0).
+Proof.
+  intros Nu Hms. rewrite exec_list_cons, exec_newset. hgs. rewrite Nu.
+  rewrite exec_list_cons, exec_formembers. hgs.
+  set (s1 := with_edge s0 (set u [] (h_edge s0))).
+  assert (H1 : has u (h_edge s1) = true) by (unfold s1, has; hgs; rewrite get_set_same; reflexivity).
+  rewrite (member_loop_ok u a LNone LNone ms ix ms s1 Hms H1).
+  set (s2 := fold_left (attach u) ms s1).
+  rewrite exec_list_cons, exec_newattr. hgs. rewrite Nu.
+  rewrite exec_list_cons, exec_attrupdate. hgs. rewrite get_set_same. rewrite set_set_same.
+  unfold insert_edge. fold s1. fold s2. reflexivity.
+Qed.
+
+Theorem add_edge_is_source members idx a s :
+  idx <> Some LNone -> has LNone (h_edge s) = false ->
+  run_method_m src_add_edge_guards src_add_edge members idx a s = add_edge members idx a s.
+Proof.
+  intros Hi Hnone. unfold run_method_m, run_guarded, src_add_edge_guards, src_add_edge, add_edge. cbn [run_guards beval]. hgs.
+  destruct (existsb is_none (mkset members)) eqn:En; [reflexivity|].
+  assert (Hms : forall x, In x (mkset members) -> is_none x = false).
+  { intros x Hx. destruct (is_none x) eqn:E; [|reflexivity]. exfalso.
+    assert (existsb is_none (mkset members) = true) by (apply existsb_exists; exists x; split; assumption). congruence. }
+  destruct idx as [i|].
+  - destruct (has i (h_edge s)) eqn:Hh; [reflexivity|].
+    assert (Ni : is_none i = false) by (destruct i; try reflexivity; exfalso; apply Hi; reflexivity).
+    rewrite exec_list_cons, exec_binduid. hgs.
+    rewrite (add_edge_body_ok a (mkset members) (Some i) i s _ Ni Hms).
+    rewrite exec_list_cons, exec_if. cbn [beval]. hgs. cbn [negb]. rewrite exec_list_cons, exec_uid. hgs. rewrite !exec_list_nil. reflexivity.
+  - rewrite Hnone.
+    rewrite exec_list_cons, exec_binduid. hgs.
+    rewrite (add_edge_body_ok a (mkset members) None (LInt (h_uid s)) (with_uid s (h_uid s + 1)) _ eq_refl Hms).
+    rewrite exec_list_cons, exec_if. cbn [beval]. hgs. cbn [negb]. rewrite !exec_list_nil. reflexivity.
+Qed.
+
+
+(* ---------- clear(remove_net_attr) : on every state ---------- *)
+Lemma exec_clear t en s : exec (SClear t) en s = (set_tab t s [], Ok).
+Proof. reflexivity. Qed.
+Lemma exec_clearattr t en s : exec (SClearAttr t) en s = (set_atab t s [], Ok).
+Proof. reflexivity. Qed.
+Lemma exec_clearnet en s : exec SClearNet en s = (mkHG (h_node s) (h_nattr s) (h_edge s) (h_eattr s) [] (h_uid s), Ok).
+Proof. reflexivity. Qed.
+
+Theorem clear_is_source b s : run_method_l src_clear [] [b] s = clear b s.
+Proof.
+  unfold run_method_l, src_clear, clear.
+  rewrite exec_list_cons, exec_clear, exec_list_cons, exec_clearattr, exec_list_cons, exec_clear, exec_list_cons, exec_clearattr.
+  rewrite exec_list_cons, exec_if. cbn [beval]. hgs. destruct b.
+  - rewrite exec_list_cons, exec_clearnet, !exec_list_nil. reflexivity.
+  - rewrite !exec_list_nil. unfold ok. hgs. reflexivity.
+Qed.
+
+(* ---------- clear_edges() : whenever the node table has distinct keys, none of them None ---------- *)
+Lemma exec_forkeys t body en s : exec (SForKeys t body) en s = iter_list body en (keys (tab t s)) s.
+Proof.
+  cbn [exec]. generalize (keys (tab t s)). intro xs. generalize s. induction xs as [|x r IH]; intro s0; [reflexivity|]. cbn [iter_list].
+  assert (E : forall l s1, (fix go (l : list stmt) (s : hg) : hg * outcome :=
+               match l with [] => (s, Ok)
+               | q :: r' => match exec q (with_loop en x) s with (s', Ok) => go r' s' | y => y end end) l s1
+             = exec_list l (with_loop en x) s1).
+  { induction l as [|q r' IHl]; intro s1; [reflexivity|]. cbn [exec_list]. destruct (exec q _ s1) as [s' [|y]]; [apply IHl|reflexivity]. }
+  rewrite E. destruct (exec_list body _ s0) as [s' [|y]]; [apply IH|reflexivity].
+Qed.
+
+Lemma reset_loop_ok en : forall xs s, (forall x, In x xs -> is_none x = false) ->
+  iter_list [SNewSet TNode VLoop] en xs s = (with_node s (fold_left (fun d x => set x [] d) xs (h_node s)), Ok).
+Proof.
+  induction xs as [|x xs IH]; intros s H; [destruct s; reflexivity|]. cbn [iter_list fold_left].
+  rewrite exec_list_cons, exec_newset. hgs. rewrite (H x (or_introl eq_refl)). rewrite exec_list_nil.
+  rewrite IH by (intros y Hy; apply H; right; exact Hy). reflexivity.
+Qed.
+
+Lemma set_app_notin {V} k (v : V) d1 d2 : ~ In k (keys d1) -> set k v (d1 ++ d2) = d1 ++ set k v d2.
+Proof.
+  induction d1 as [|[k' v'] r IH]; intro H; [reflexivity|]. cbn [app set].
+  destruct (lbl_eqb_spec k k') as [->|N]; [exfalso; apply H; left; reflexivity|].
+  rewrite IH; [reflexivity|]. intro Hi. apply H. right. exact Hi.
+Qed.
+
+Lemma reset_all (d2 : odict (list lbl)) : forall d1, NoDup (keys (d1 ++ d2)) ->
+  fold_left (fun d x => set x [] d) (keys d2) (d1 ++ d2) = d1 ++ map (fun kv => (fst kv, [])) d2.
+Proof.
+  induction d2 as [|[k v] r IH]; intros d1 ND; [reflexivity|]. cbn [keys map fold_left fst].
+  assert (Hk : ~ In k (keys d1)).
+  { unfold keys in ND. rewrite map_app in ND. cbn [map fst] in ND. apply NoDup_remove_2 in ND.
+    intro Hi. apply ND. apply in_or_app. left. exact Hi. }
+  rewrite set_app_notin by exact Hk. cbn [set]. rewrite lbl_eqb_refl.
+  change (d1 ++ (k, []) :: r) with (d1 ++ [(k, @nil lbl)] ++ r). rewrite app_assoc.
+  change (map fst r) with (keys r). rewrite IH.
+  - rewrite <- app_assoc. reflexivity.
+  - rewrite <- app_assoc. unfold keys in *. rewrite map_app in *. cbn [map fst app] in *. exact ND.
+Qed.
+
+Theorem clear_edges_is_source s : NoDup (keys (h_node s)) -> ~ In LNone (keys (h_node s)) ->
+  run_method_l src_clear_edges [] [] s = clear_edges s.
+Proof.
+  intros ND NN. unfold run_method_l, src_clear_edges, clear_edges.
+  rewrite exec_list_cons, exec_forkeys. hgs. rewrite reset_loop_ok.
+  2:{ intros x Hx. destruct x; try reflexivity. contradiction. }
+  rewrite exec_list_cons, exec_clear, exec_list_cons, exec_clearattr, exec_list_nil.
+  pose proof (reset_all (h_node s) [] ND) as R. cbn [app] in R. rewrite R. reflexivity.
+Qed.
+
+(* ---------- remove_edges_from(ebunch) : on every state satisfying the class invariant ---------- *)
+Lemma remove_one_ok e args flags l1 locs ms ix u s : Inv s ->
+  exec_list [SForCopy TEdge VLoop [SRemove TNode VLoop VLoop1]; SDel TEdge VLoop; SDelAttr TEdge VLoop]
+            (mkEnv args flags e [] l1 locs ms ix u) s =
+  (st_of (remove_edge1 e s), out_of (remove_edge1 e s)).
+Proof.
+  intros (W & (_ & Kea & _ & _) & (_ & Vm) & _). unfold remove_edge1.
+  rewrite exec_list_cons, exec_for. hgs. destruct (get e (h_edge s)) as [m|] eqn:Ge; [|reflexivity].
+  assert (Hm : mems s e = m) by (unfold mems, getl; rewrite Ge; reflexivity).
+  rewrite (iter_remove_e_ok args flags locs e l1 ms ix u m s).
+  2:{ rewrite <- Hm. apply Vm. }
+  2:{ intros x Hx. assert (Hi : In e (mships s x)) by (apply W; rewrite Hm; exact Hx).
+      unfold mships, getl in Hi. destruct (get x (h_node s)) as [l|]; [|destruct Hi]. exists l. split; [reflexivity|apply mem_In; exact Hi]. }
+  set (s' := fold_left (fun s n => node_rem n e s) m s). destruct (fold_node_rem_tables e m s) as [A B]. fold s' in A, B.
+  rewrite exec_list_cons, exec_del. hgs. rewrite A.
+  assert (He : has e (h_edge s) = true) by (unfold has; rewrite Ge; reflexivity). rewrite He.
+  rewrite exec_list_cons, exec_delattr. hgs. rewrite B.
+  assert (Hea : has e (h_eattr s) = true) by (apply has_In; rewrite Kea; apply has_In; exact He).
+  rewrite Hea, exec_list_nil. unfold ok, drop_edge, st_of, out_of. cbn [fst snd]. rewrite A, B. reflexivity.
+Qed.
+
+Lemma remove_edge1_no_warn e s : snd (remove_edge1 e s) = O.
+Proof. unfold remove_edge1. destruct (get e (h_edge s)); reflexivity. Qed.
+
+Lemma remove_loop_ok args flags l0 l1 locs ms ix u : forall es s, Inv s ->
+  (let (s', o) := iter_list [SForCopy TEdge VLoop [SRemove TNode VLoop VLoop1]; SDel TEdge VLoop; SDelAttr TEdge VLoop]
+                            (mkEnv args flags l0 [] l1 locs ms ix u) es s in (s', o, O)) = remove_edges_from es s.
+Proof.
+  induction es as [|e es IH]; intros s I; [reflexivity|]. unfold remove_edges_from. cbn [iter_list loop]. hgs.
+  rewrite (remove_one_ok e args flags l0 locs ms ix u s I).
+  pose proof (Inv_remove_edge1 e s I) as I'. pose proof (remove_edge1_no_warn e s) as Wn.
+  destruct (remove_edge1 e s) as [[s1 o1] w1]. cbn [st_of out_of fst snd] in *. subst w1.
+  destruct o1 as [|x]; [|reflexivity].
+  specialize (IH s1 I'). unfold remove_edges_from in IH. rewrite <- IH.
+  destruct (iter_list _ _ es s1) as [s2 o2]. reflexivity.
+Qed.
+
+Theorem remove_edges_from_is_source es s : Inv s ->
+  run_method_l src_remove_edges_from es [] s = remove_edges_from es s.
+Proof.
+  intro I. unfold run_method_l, src_remove_edges_from. rewrite exec_list_cons, exec_formembers. hgs.
+  rewrite <- (remove_loop_ok [] [] LNone LNone [] es None LNone es s I).
+  destruct (iter_list _ _ es s) as [s' [|x]]; [rewrite exec_list_nil|]; reflexivity.
 Qed.
